@@ -200,6 +200,11 @@ func (ft *funcTrans) call(in ssa.CallInstruction, val *ssa.Call) {
 		}
 		if specialised {
 			if mi, ok := a.(*ssa.MakeInterface); ok && strings.Contains(c.Key, "<"+types.TypeString(mi.X.Type(), nil)+">") {
+				if _, isGlobal := mi.X.(*ssa.Global); isGlobal {
+					// opaque address of a package-level variable (see MakeInterface)
+					actuals = append(actuals, Term{fmt.Sprintf("(i-val %s)", ft.termOf(mi).S), &Sort{Name: "Int", Kind: KRef, Go: mi.X.Type()}})
+					continue
+				}
 				actuals = append(actuals, ft.termOf(mi.X))
 				continue
 			}
